@@ -1,17 +1,44 @@
-(* Model/HandlersProc.v — the byte-access skeleton of the protocol processors: every IsValid
-   gate and every index / re-slice the processor performs on the payload Parse hands it,
-   branch by branch.  State-dependent actions (table look-ups, replies sent, logging) do not
-   touch the payload bytes and are omitted; their result (nil / error) is not observed:
-   processors are compared on  ret | panic | fuel  only.
-     ARP    handlers/arp_spoofer/arp.go:277        (layer_arp.go:25 IsValid + getters)
-     ICMPv4 handlers/icmp_spoofer/icmp4_logger.go:35 (nested IPv4/UDP/TCP of dest. unreachable)
-     ICMPv6 handlers/icmp_spoofer/icmp6.go:98       (per-type IsValid, NA TargetLLA, RA Options)
-     DHCPv4 handlers/dhcp4_spoofer/dhcp4.go:247 / client.go:153 (IsValid, ParseOptions, type) *)
+(* Model/HandlersProc.v — control flow of the protocol processors as far as it can index,
+   slice, loop or call a decoder on the payload Parse hands over.  Branches that depend on
+   table state (handler closed, host hunted / captured / known, DHCP offer pending, lease
+   state deciding the kind of DHCP reply, log level) are BOOLEAN / ENUM PARAMETERS of the
+   model ([*_env] records), universally quantified in the theorems; the harness drives them.
+   Sending a reply builds a fresh frame in a pool buffer (C07); the one reply that is
+   encoded INTO the request buffer (EncodeDHCP4(p, ...)) is modelled with its capacity rule.
+   Processors are compared on  ret | panic | fuel.
+     ARP    handlers/arp_spoofer/arp.go:277
+     ICMPv4 handlers/icmp_spoofer/icmp4_logger.go:35
+     ICMPv6 handlers/icmp_spoofer/icmp6.go:98
+     DHCPv4 handlers/dhcp4_spoofer/dhcp4.go:247, client.go:153, discover.go, request.go,
+            declinerelease.go; layer_dhcp4.go:355 EncodeDHCP4 *)
 From PV Require Import Base.Prelude Base.Slice Model.NDPOptions Model.MiscDecoders.
 Open Scope N_scope.
 
 (* ---------------------------------------------------------------- ARP *)
-Definition arp_process (p : slice) : res unit :=
+Record arp_env := mkArpEnv {
+  ae_closed : bool;         (* Close() was called *)
+  ae_hunting : bool;        (* sender MAC is in the hunt list *)
+  ae_offer_other : bool;    (* a DHCP offer is pending for the sender MAC and differs from the target IP *)
+  ae_debug : bool
+}.
+
+Definition ip4_at (p : slice) (a : nat) : res bytes := (s <- sl p a (a + 4) ;; Ok (view s))%res.
+Definition is_linklocal4 (ip : bytes) : bool := (nth 0 ip 0 =? 169) && (nth 1 ip 0 =? 254).
+Definition is_zero4 (ip : bytes) : bool :=
+  (nth 0 ip 0 =? 0) && (nth 1 ip 0 =? 0) && (nth 2 ip 0 =? 0) && (nth 3 ip 0 =? 0).
+Fixpoint bytes_eqb' (a b : bytes) : bool :=
+  match a, b with
+  | [], [] => true
+  | x :: a', y :: b' => (x =? y) && bytes_eqb' a' b'
+  | _, _ => false
+  end.
+
+(* ARP.FastLog: Operation, SrcMAC, SrcIP, DstMAC, DstIP *)
+Definition arp_fastlog (p : slice) : res unit :=
+  (_ <- be16_at p 6 ;; _ <- sl p 8 14 ;; _ <- sl p 14 18 ;; _ <- sl p 18 24 ;; _ <- sl p 24 28 ;; Ok tt)%res.
+Definition when (b : bool) (r : res unit) : res unit := if b then r else Ok tt.
+
+Definition arp_process (e : arp_env) (router_ip : bytes) (lan_contains : bytes -> bool) (p : slice) : res unit :=
   if Nat.ltb (len p) 28 then Err EFrameLen
   else
     (ht <- be16_at p 0 ;;
@@ -22,12 +49,32 @@ Definition arp_process (p : slice) : res unit :=
      if negb (hl =? 6) then Err EOther else
      pl <- idx p 5 ;;
      if negb (pl =? 4) then Err EOther else
-     (* SrcIP, DstIP, Operation, SrcMAC: fixed offsets below 28 *)
-     _ <- sl p 14 18 ;; _ <- sl p 24 28 ;; _ <- be16_at p 6 ;; _ <- sl p 8 14 ;; _ <- sl p 18 24 ;;
-     Ok tt)%res.
+     if ae_closed e then Ok tt else
+     sip <- ip4_at p 14 ;;
+     dip <- ip4_at p 24 ;;
+     if is_linklocal4 sip || is_linklocal4 dip then when (ae_debug e) (arp_fastlog p)
+     else
+       op <- be16_at p 6 ;;
+       if op =? 2 then when (ae_debug e) (arp_fastlog p)              (* reply / gratuitous *)
+       else if op =? 1 then
+         (if bytes_eqb' sip dip then when (ae_debug e) (arp_fastlog p) (* announcement *)
+          else if is_zero4 sip then                                    (* ACD probe *)
+            (_ <- when (ae_debug e) (arp_fastlog p) ;;
+             _ <- sl p 8 14 ;;                                         (* DHCPv4IPOffer(SrcMAC) *)
+             if ae_offer_other e && lan_contains dip && negb (bytes_eqb' dip router_ip)
+             then _ <- sl p 8 14 ;; Ok tt                              (* Reply(SrcMAC, ...) *)
+             else Ok tt)
+          else                                                         (* request *)
+            (_ <- when (ae_debug e) (arp_fastlog p) ;;
+             _ <- sl p 8 14 ;;                                         (* huntList[SrcMAC] *)
+             if ae_hunting e && bytes_eqb' dip router_ip
+             then _ <- sl p 8 14 ;; _ <- sl p 14 18 ;; Ok tt           (* spoofed reply *)
+             else Ok tt))
+       else arp_fastlog p)%res.                                        (* "invalid operation" is logged *)
 
 (* ---------------------------------------------------------------- ICMPv4 logger *)
-(* IP4.IsValid (layer_ip4.go:40): n >= 20 && n >= IHL && n >= TotalLen *)
+(* IP4.IsValid (layer_ip4.go:40, as repaired by 38ef1da):
+   n >= 20 && IHL >= 20 && n >= IHL && TotalLen >= IHL && n >= TotalLen *)
 Definition ip4_ihl (p : slice) : res nat := (b <- idx p 0 ;; Ok (N.to_nat (N.land b 15) * 4)%nat)%res.
 Definition ip4_totallen (p : slice) : res nat := (v <- be16_at p 2 ;; Ok (N.to_nat v))%res.
 
@@ -35,18 +82,25 @@ Definition ip4_is_valid (p : slice) : res bool :=
   if Nat.ltb (len p) 20 then Ok false
   else
     (ihl <- ip4_ihl p ;;
-     if Nat.ltb (len p) ihl then Ok false
-     else tl <- ip4_totallen p ;; Ok (negb (Nat.ltb (len p) tl)))%res.
+     if Nat.ltb ihl 20 then Ok false
+     else if Nat.ltb (len p) ihl then Ok false
+     else tl <- ip4_totallen p ;;
+          if Nat.ltb tl ihl then Ok false else Ok (negb (Nat.ltb (len p) tl)))%res.
 
 (* IP4.Payload (:35): p[IHL:TotalLen] *)
 Definition ip4_payload (p : slice) : res slice :=
   (ihl <- ip4_ihl p ;; tl <- ip4_totallen p ;; sl p ihl tl)%res.
 
-Definition icmp4_process (p : slice) : res unit :=
+(* ICMPEcho.FastLog: checksum, id, seq, EchoData = p[8:] *)
+Definition echo_fastlog (p : slice) : res unit :=
+  (_ <- be16_at p 2 ;; _ <- be16_at p 4 ;; _ <- be16_at p 6 ;; _ <- slfrom p 8 ;; Ok tt)%res.
+
+Definition icmp4_process (info : bool) (p : slice) : res unit :=
   if Nat.ltb (len p) 8 then Err EFrameLen
   else
     (t <- idx p 0 ;;
-     if t =? 3 then
+     if (t =? 0) || (t =? 8) then when info (echo_fastlog p)      (* echo reply (IsValid: len >= 8) / request *)
+     else if t =? 3 then
        (_ <- idx p 1 ;;
         if Nat.ltb (len p) 28 then Err EParseFrame
         else
@@ -55,63 +109,175 @@ Definition icmp4_process (p : slice) : res unit :=
           if negb v then Err EParseFrame
           else
             proto <- idx ip 9 ;;
-            if proto =? 17 then
-              (udp <- ip4_payload ip ;;
-               if Nat.ltb (len udp) 8 then Err EFrameLen else _ <- be16_at udp 2 ;; Ok tt)
-            else if proto =? 6 then
-              (tcp <- ip4_payload ip ;;
-               if Nat.ltb (len tcp) 20 then Err EParseFrame else _ <- be16_at tcp 2 ;; Ok tt)
-            else Ok tt)
+            _ <- (if proto =? 17 then
+                    (udp <- ip4_payload ip ;;
+                     if Nat.ltb (len udp) 8 then Err EFrameLen else _ <- be16_at udp 2 ;; Ok tt)
+                  else if proto =? 6 then
+                    (tcp <- ip4_payload ip ;;
+                     (* TCP.IsValid (as repaired by 3443f46): len >= 20 && 4*(p[12]>>4) >= 20 && len >= that *)
+                     if Nat.ltb (len tcp) 20 then Err EParseFrame
+                     else off <- idx tcp 12 ;;
+                          let hl := (N.to_nat (N.shiftr off 4) * 4)%nat in
+                          if Nat.ltb hl 20 || Nat.ltb (len tcp) hl then Err EParseFrame
+                          else _ <- be16_at tcp 2 ;; Ok tt)
+                  else Ok tt) ;;
+            when info (_ <- idx p 1 ;; _ <- sl ip 16 20 ;; Ok tt))  (* code, originalIP4Frame.Dst() *)
      else Ok tt)%res.
 
-(* known class (DESIGN section 11 #3, reached through the ICMPv4 logger): the embedded IPv4
-   header of a destination-unreachable message passes IsValid with TotalLen < IHL and
-   Payload() = p[IHL:TotalLen] panics *)
-Definition known_C08_icmp4_inner (p : slice) : bool :=
-  Nat.leb 28 (len p) && (nth 0 (arr p) 0 =? 3) &&
-  (let ihl := (N.to_nat (N.land (nth 8 (arr p) 0%N) 15%N) * 4)%nat in
-   let tl := N.to_nat (be16 (nth 10 (arr p) 0) (nth 11 (arr p) 0)) in
-   Nat.leb ihl (len p - 8) && Nat.leb tl (len p - 8) && Nat.ltb tl ihl &&
-   ((nth 17 (arr p) 0 =? 17) || (nth 17 (arr p) 0 =? 6))).
-
 (* ---------------------------------------------------------------- ICMPv6 *)
+Record icmp6_env := mkIcmp6Env {
+  ie_debug : bool;            (* Logger6.IsDebug(): the typed views are logged *)
+  ie_src_unspecified : bool;  (* IPv6 source is :: (duplicate address detection) *)
+  ie_ra_processed : bool;     (* the RA rate limiter lets this one through and frame.Host != nil *)
+  ie_hunting : bool           (* non-empty hunt list: the RA wakes the spoof loops up *)
+}.
+
+(* NA / NS / Redirect option accessors: len-guarded fixed positions *)
+Definition lla_option_at (p : slice) (off : nat) (ty : N) : res unit :=
+  if Nat.ltb (len p) (off + 8) then Ok tt
+  else (a <- idx p off ;; b <- idx p (off + 1) ;;
+        if negb (a =? ty) || negb (b =? 1) then Ok tt
+        else _ <- sl p (off + 2) (off + 8) ;; Ok tt)%res.
+
+Definition is_global_unicast6 (a : bytes) : bool :=
+  (* netip: not unspecified, loopback, multicast (ff..), link-local unicast (fe80::/10) *)
+  negb (forallb (fun b => b =? 0) a) && negb (nth 0 a 0 =? 255) &&
+  negb ((nth 0 a 0 =? 254) && (N.land (nth 1 a 0) 192 =? 128)) &&
+  negb (forallb (fun b => b =? 0) (firstn 15 a) && (nth 15 a 0 =? 1)).
+
 Section ICMP6.
   Variable lbl_ok : bytes -> bool.
 
-  (* [ra_processed]: the RA rate limiter lets this one through and frame.Host is not nil *)
-  Definition icmp6_process (fuel : nat) (ra_processed : bool) (p : slice) : res unit :=
+  Definition icmp6_process (fuel : nat) (e : icmp6_env) (p : slice) : res unit :=
     if Nat.ltb (len p) 8 then Err EFrameLen
     else
       (t <- idx p 0 ;;
        if t =? 136 then        (* neighbor advertisement *)
          (if Nat.ltb (len p) 24 then Err EFrameLen
           else
+            _ <- when (ie_debug e) (_ <- idx p 1 ;; _ <- idx p 4 ;; _ <- sl p 8 24 ;; lla_option_at p 24 2) ;;
             f <- idx p 4 ;;
             if negb (N.land f 32 =? 0) && (N.land f 64 =? 0) then
-              (* Override && !Solicited: TargetLLA() *)
-              (if Nat.ltb (len p) 32 then Err EInvalidMAC
+              (* Override && !Solicited: TargetLLA() must be there *)
+              (_ <- when (ie_debug e) (_ <- sl p 8 24 ;; lla_option_at p 24 2) ;;
+               if Nat.ltb (len p) 32 then Err EInvalidMAC
                else a <- idx p 24 ;; b <- idx p 25 ;;
                     if negb (a =? 2) || negb (b =? 1) then Err EInvalidMAC
                     else _ <- sl p 26 32 ;; Ok tt)
             else Ok tt)
-       else if t =? 135 then   (* neighbor solicitation: TargetAddress p[8:24] *)
-         (if Nat.ltb (len p) 24 then Err EFrameLen else _ <- sl p 8 24 ;; Ok tt)
+       else if t =? 135 then   (* neighbor solicitation *)
+         (if Nat.ltb (len p) 24 then Err EFrameLen
+          else
+            _ <- when (ie_debug e) (_ <- idx p 1 ;; _ <- sl p 8 24 ;; lla_option_at p 24 1) ;;
+            if ie_src_unspecified e then when (ie_debug e) (_ <- sl p 8 24 ;; Ok tt)
+            else
+              tgt <- sl p 8 24 ;;
+              if is_global_unicast6 (view tgt) then _ <- sl p 8 24 ;; Ok tt   (* ICMP6SendNeighbourSolicitation(target) *)
+              else Ok tt)
        else if t =? 134 then   (* router advertisement *)
          (if Nat.ltb (len p) 16 then Err EFrameLen
-          else if negb ra_processed then Ok tt
+          else if negb (ie_ra_processed e) then Ok tt
           else
             _ <- ra_options lbl_ok fuel p ;;
             _ <- idx p 5 ;; _ <- idx p 4 ;; _ <- be16_at p 6 ;; _ <- be32_at p 8 ;; _ <- be32_at p 12 ;;
             Ok tt)
-       else if t =? 133 then (if Nat.ltb (len p) 8 then Err EFrameLen else Ok tt)
-       else if t =? 129 then (if Nat.ltb (len p) 8 then Err EFrameLen else Ok tt)
-       else if t =? 137 then (if Nat.ltb (len p) 40 then Err EFrameLen else Ok tt)
-       else if (t =? 128) || (t =? 143) || (t =? 131) || (t =? 130) || (t =? 1) then Ok tt
+       else if t =? 133 then   (* router solicitation: IsValid len >= 8 && type; debug: SourceLLA *)
+         when (ie_debug e)
+           (_ <- idx p 1 ;;      (* SourceLLA as repaired by 24e521d *)
+            if Nat.ltb (len p) 16 then Ok tt
+            else a <- idx p 8 ;; b <- idx p 9 ;;
+                 if (a =? 1) && (b =? 1) then _ <- sl p 10 16 ;; Ok tt else Ok tt)
+       else if t =? 129 then when (ie_debug e) (echo_fastlog p)
+       else if t =? 128 then when (ie_debug e) (echo_fastlog p)
+       else if t =? 137 then   (* redirect: IsValid len >= 40; debug: String() *)
+         (if Nat.ltb (len p) 40 then Err EFrameLen
+          else when (ie_debug e) (_ <- idx p 1 ;; _ <- sl p 8 24 ;; _ <- lla_option_at p 40 2 ;; _ <- sl p 24 40 ;; Ok tt))
+       else if (t =? 143) || (t =? 131) || (t =? 130) || (t =? 1) then Ok tt
        else Err EParseFrame)%res.
 End ICMP6.
 
 (* ---------------------------------------------------------------- DHCPv4 *)
-(* ProcessPacket / processClientPacket: IsValid, ParseOptions; everything behind works on the
-   option map (values are sub-slices used through len-checked conversions) *)
-Definition dhcp4_process (fuel : nat) (p : slice) : res unit :=
-  (_ <- dhcp_is_valid fuel p ;; dhcp_parse_options fuel p)%res.
+(* the option map of ParseOptions: the LAST occurrence of a code wins; [l] is the option area *)
+Fixpoint dhcp_find (fuel : nat) (l : bytes) (code : N) (acc : option bytes) : option bytes :=
+  match fuel with
+  | O => acc
+  | S f =>
+      match l with
+      | o0 :: o1 :: rest =>
+          if o0 =? 255 then acc
+          else if o0 =? 0 then dhcp_find f (o1 :: rest) code acc
+          else
+            let size := N.to_nat o1 in
+            if Nat.ltb (List.length rest) size then acc
+            else dhcp_find f (skipn size rest) code (if o0 =? code then Some (firstn size rest) else acc)
+      | _ => acc
+      end
+  end.
+
+Definition dhcp_opt (p : slice) (code : N) : option bytes :=
+  let l := skipn 240 (view p) in dhcp_find (S (List.length l)) l code None.
+
+Inductive dhcp_reply := RNone | RNak | ROther (pos : nat).
+
+Record dhcp_env := mkDhcpEnv {
+  de_client_port : bool;   (* destination port 68: processClientPacket *)
+  de_reply : dhcp_reply;   (* what the lease table decides: nothing / NAK / OFFER or ACK whose
+                              options (subnet configuration) take [pos] bytes *)
+  de_info : bool
+}.
+
+(* EncodeDHCP4(p, ...) (layer_dhcp4.go:355) re-uses the request buffer up to its CAPACITY:
+   cap < 300 -> nil; header fields below 240 are rewritten; AppendOptions copies what fits
+   into p[240:cap] and returns the UNtruncated option length pos; then p[240+pos] = End *)
+Definition encode_dhcp4_into (p : slice) (pos : nat) : res unit :=
+  if Nat.ltb (cap p) 300 then Ok tt
+  else if Nat.ltb (240 + pos) (cap p) then Ok tt
+  else Panic.
+
+Definition client_id (p : slice) : res bytes :=
+  match dhcp_opt p 61 with
+  | Some v => Ok v
+  | None => (s <- sl p 28 34 ;; Ok (view s))%res     (* CHAddr *)
+  end.
+
+Definition dhcp4_process (fuel : nat) (e : dhcp_env) (p : slice) : res unit :=
+  (_ <- dhcp_is_valid fuel p ;;
+   _ <- (if de_client_port e then dhcp_is_valid fuel p else Ok tt) ;;   (* processClientPacket re-validates *)
+   _ <- dhcp_parse_options fuel p ;;
+   match dhcp_opt p 53 with
+   | Some [mt] =>
+       if de_client_port e then
+         (* client.go:153: server id, chaddr[0:4], xid, yiaddr; forceDecline builds its own frame *)
+         (cid <- client_id p ;;
+          match dhcp_opt p 54 with
+          | Some sid =>
+              if negb (Nat.eqb (List.length sid) 4 || Nat.eqb (List.length sid) 16) then Err EParseFrame
+              else _ <- sl p 28 34 ;; _ <- sl p 4 8 ;; _ <- sl p 16 20 ;; Ok tt
+          | None => Err EParseFrame
+          end)
+       else if (mt <? 1) || (8 <? mt) then Err EParseFrame
+       else
+         (cid <- client_id p ;;
+          _ <- sl p 4 8 ;; _ <- be16_at p 8 ;; _ <- sl p 12 16 ;; _ <- sl p 28 34 ;; _ <- be16_at p 10 ;;
+          if (mt =? 1) || (mt =? 3) then
+            match de_reply e with
+            | RNone => Ok tt
+            | RNak => encode_dhcp4_into p (3 + 6 + (2 + List.length cid))
+            | ROther pos => encode_dhcp4_into p pos
+            end
+          else Ok tt)
+   | _ => Err EParseFrame
+   end)%res.
+
+(* known class: the reply is encoded into the request buffer and does not fit its capacity *)
+Definition dhcp_reply_pos (e : dhcp_env) (p : slice) : option nat :=
+  match de_reply e with
+  | RNone => None
+  | RNak => match client_id p with Ok cid => Some (3 + 6 + (2 + List.length cid))%nat | _ => None end
+  | ROther pos => Some pos
+  end.
+Definition known_C08_dhcp_reply_overrun (e : dhcp_env) (p : slice) : bool :=
+  match dhcp_reply_pos e p with
+  | Some pos => Nat.leb 300 (cap p) && Nat.leb (cap p) (240 + pos)
+  | None => false
+  end.
